@@ -6,7 +6,7 @@ d=$(realpath $1); p=$2; shift 2
 wt=/tmp/seedrepo_$$_$(basename $d)
 git -C /repo worktree add -q --detach $wt HEAD || exit 3
 trap "git -C /repo worktree remove --force $wt >/dev/null 2>&1; rm -rf $wt; git -C /repo worktree prune" EXIT
-if ! git -C $wt apply "$d/patch.diff"; then echo "patch does not apply"; exit 3; fi
+if ! git -C $wt apply "$d/patch.diff" 2>/dev/null && ! git -C $wt apply --3way "$d/patch.diff" 2>/dev/null && ! patch -d $wt -p1 --fuzz=3 -s < "$d/patch.diff"; then echo "patch does not apply"; exit 3; fi
 CQV_REPO=$wt timeout 3400 /verif/bin/cqv check $p "$@" 2>&1 | grep -v "^\[$p\] c.* ok " | tail -15
 rc=${PIPESTATUS[0]}
 echo "exit=$rc"
